@@ -975,6 +975,92 @@ func dischargeIndexSite(c *Check, ca *cursorAnalysis, s IndexSite) (discharge, b
 				lo = ca.eval(fn, path, x.Low)
 			}
 			if lo.k != cfSafe && lo.k != cfPos && lo.k != cfAtSlash {
+				// the start of the segment window: low = next0 - 1 - len(segment0). With the window fact
+				// segment0 == path[low:next0-1], so 0 <= low <= next0-1 <= len(path); the high bound, if any, is a
+				// cursor value minus one, and the cursor only grows from next0 while staying a valid cursor
+				if w, isW := windowSig(fn); isW && p.windowFacts()[fn] && x.Low != nil {
+					nextP, segP := vParam(fn, w.next), vParam(fn, w.seg)
+					if linForm(-1, []VM{nextP}, []VM{vLen(segP)})(linOf(x.Low)) {
+						if x.High == nil {
+							return discharge{"segment-window", "path[next-1-len(segment):]: the segment window starts inside the path (every caller passes segment == path[next-1-len(segment):next-1])"}, true
+						}
+						growing := func(cv ssa.Value) bool {
+							if strip(cv) == ssa.Value(fn.Params[w.next]) {
+								return true
+							}
+							ph, isPhi := strip(cv).(*ssa.Phi)
+							if !isPhi {
+								return false
+							}
+							for _, e := range ph.Edges {
+								if strip(e) == ssa.Value(fn.Params[w.next]) {
+									continue
+								}
+								el := linOf(e)
+								if el.t[ssa.Value(ph)] != 1 || el.k < 1 {
+									return false
+								}
+							}
+							return true
+						}
+						// high = cursor + Index(path[cursor:], "/") on the found edge: the '/' in front of the next cursor
+						if hf := ca.eval(fn, path, x.High); hf.k == cfAtSlash && hf.base != nil && growing(hf.base) {
+							return discharge{"segment-window", "path[next-1-len(segment):cursor+i]: window start <= next-1 <= cursor <= cursor+i < len(path)"}, true
+						}
+						hl := linOf(x.High)
+						if hl.k == 0 && len(hl.t) == 2 {
+							// cursor + Index(path[cursor:], "/") spelled as (cursor + i + 1) - 1, on the found edge
+							for cv, cf := range hl.t {
+								if cf != 1 || !growing(cv) {
+									continue
+								}
+								for iv, icf := range hl.t {
+									if iv == cv || icf != 1 {
+										continue
+									}
+									hay, isIdx := indexSlash(iv)
+									if !isIdx {
+										continue
+									}
+									sub := subOf(hay)
+									if sub.base == nil || strip(sub.base) != strip(path) || sub.hi != nil || !sub.lo.equal(linOf(cv)) {
+										continue
+									}
+									found := union(edgesWhere(fn, cCmp(token.EQL, vIs(iv), vConstInt(-1)), false), edgesWhere(fn, cCmp(token.GEQ, vIs(iv), vConstInt(0)), true))
+									f := ca.eval(fn, path, cv)
+									if g, _ := guardedBy(fn, found, isInstr(x)); g && len(found) > 0 && (f.k == cfSafe || f.k == cfPos) {
+										return discharge{"segment-window", "path[next-1-len(segment):cursor+i]: window start <= next-1 <= cursor <= cursor+i < len(path) on the found edge"}, true
+									}
+								}
+							}
+						}
+						if hl.k == -1 && len(hl.t) == 1 {
+							for cv, cf := range hl.t {
+								if cf != 1 {
+									continue
+								}
+								f := ca.eval(fn, path, cv)
+								grows := strip(cv) == ssa.Value(fn.Params[w.next])
+								if ph, isPhi := strip(cv).(*ssa.Phi); isPhi {
+									// φ(next0, cursor + (index + 1)): starts at next0 and only grows
+									grows = true
+									for _, e := range ph.Edges {
+										if strip(e) == ssa.Value(fn.Params[w.next]) {
+											continue
+										}
+										el := linOf(e)
+										if el.t[ssa.Value(ph)] != 1 || el.k < 1 {
+											grows = false
+										}
+									}
+								}
+								if grows && (f.k == cfSafe || f.k == cfPos || f.k == cfAtSlash) {
+									return discharge{"segment-window", "path[next-1-len(segment):cursor-1]: window start <= next-1 <= cursor-1 < len(path) (window fact of the callers, cursor " + f.String() + ")"}, true
+								}
+							}
+						}
+					}
+				}
 				return discharge{"cursor", fmt.Sprintf("low bound %s of path slice has fact %s; need 0 <= low <= len(path)", vstr(x.Low), lo)}, false
 			}
 			if x.High == nil {
